@@ -114,6 +114,14 @@ func (p *Prog) genFunc(fi *FuncInfo) (g *FuncGen) {
 		g.oblige(final, "iofail", "", nil, fmt.Sprintf("(=> (and %s (not %s)) (not (= %s 0)))", cur, g.entry.heap["$iofail"], errV.T), fi.Body.Rbrace,
 			"a failed file-system modification is reported: the function returns a non-nil error")
 	}
+	// a proof step whose call the body no longer makes is an open obligation, not a silently dropped one
+	if fi.Spec != nil {
+		for _, a := range fi.Spec.Asserts {
+			if g.afterCount[a.Callee] <= a.Ord {
+				g.oblige(final, "assert", a.Clause.Label+"[no-such-call]", a.Clause.Tags, "false", fi.Body.Rbrace, fmt.Sprintf("after %s#%d: the body makes no such call", a.Callee, a.Ord))
+			}
+		}
+	}
 	// ensures
 	if fi.Spec != nil {
 		names := map[string]Val{}
